@@ -581,7 +581,7 @@ META = dict(
 )
 
 MANIFEST = dict(
-    text="For C05: the real rebuild_tetrahedral/rotate_tetrahedral on symbolic coordinates (two- and three-bond branches): the added hydrogen has the parent distance and the angle to the parent-next bond of the hydrogen it is rotated from, sits at the free tetrahedral position (never on an existing hydrogen) and the existing atoms end where they started (exact: cos = -1/2, sin^2 = 3/4); every torsion change of the real set_dihedral_angle carries hydrogens with their parents (C04's symbolic classification applied to all bonds with a hydrogen, all coordinates and angles symbolic); the real update_bonds clears the peptide neighbour pointers on both sides of a chain break for every C-N distance, so the three reference atoms of a superposition are never taken across a gap. Water hydrogens through the real pipeline for a water in contact, isolated, or next to another water only (O-H and H-H against the template). Superposition algebra: C15.",
+    text="For C05: the real rebuild_tetrahedral/rotate_tetrahedral on symbolic coordinates (two- and three-bond branches): the added hydrogen has the parent distance and the angle to the parent-next bond of the hydrogen it is rotated from, sits at the free tetrahedral position (never on an existing hydrogen) and the existing atoms end where they started (exact: cos = -1/2, sin^2 = 3/4); every torsion change of the real set_dihedral_angle carries hydrogens with their parents (C04's symbolic classification applied to all bonds with a hydrogen, all coordinates and angles symbolic); the real update_bonds clears the peptide neighbour pointers on both sides of a chain break for every C-N distance, so the three reference atoms of a superposition are never taken across a gap. Water hydrogens through the real pipeline for a water in contact, isolated, or next to another water only (O-H and H-H against the template). Superposition algebra: C15. Round 4: every residue type as first / last residue of a chain (selector) with the same template-distance checks incl. the terminal amine hydrogens, no input heavy atom displaced by hydrogen building; a hydrogen finalised or placed by a donor attempt on an oxygen with two bonds sits at one of the two free tetrahedral positions (site harness of C14).",
     note="Trusted: z3 (two builds), exact reals. Polar hydrogen / lone-pair placement during optimisation is outside. Known findings: N-terminal H2/H3, neutral C-terminal HO and methyl hydrogens on branch atoms are ranked by distance from CA and rotate with a bond they are not attached beyond (known_findings.json).",
     technique="polynomial lemmas over terms from the real code (z3 QF_NRA, two builds) + finite graph condition + symbolic execution",
     design="DESIGN.md section 3 C05",
